@@ -12,12 +12,13 @@ The policy and the copy sites are the regenerated ones (Gen/HeapSites).
 -/
 import Lean.Data.Json
 import Jap.Core.Heap
+import Jap.Core.HeapHist
 import Jap.Gen.HeapSites
 import Jap.Gen.NsTables
 
 open Lean Jap.Heap
 
-def pol : Policy := policyOfTable Jap.Gen.HeapSites.kindTable
+def pol : Policy := policyOfTable Jap.Gen.HeapSites.kindTable Jap.Gen.HeapSites.stripMetaCopiesEmpty
 def cs : Sites := sitesOfTable Jap.Gen.HeapSites.copySites
 def metaKeys : List String := Jap.Gen.metaKeys
 
@@ -94,6 +95,30 @@ def outM (m : M T) (shared chg : List Nat) : Json :=
 
 def outR (r : R T) (shared : List Nat) : Json := outM ⟨r.val, [], [], r.next⟩ shared []
 
+def optNat (j : Json) (key : String) : Option Nat :=
+  match j.getObjVal? key with
+  | .ok (.num n) => some n.mantissa.toNat
+  | _ => none
+
+def opOfJson (j : Json) : Except String Op := do
+  let a := getNat j "a" 0
+  match getStr j "o" with
+  | "dump" => pure (.dump a)
+  | "validate" => pure (.validate a)
+  | "validate_branch" => pure (.validateBranch (getStr j "s") a)
+  | "merge" => pure (.merge a (getNat j "b" 0))
+  | "strip_unknown" => pure (.stripUnknown (getStrs j "known") a)
+  | "instantiate" => pure (.instantiate a)
+  | "parse_object" => pure (.parseObject a (optNat j "b"))
+  | "parse_args" => pure (.parseArgs a (optNat j "b"))
+  | "parse_text" =>
+    let sh ← getT j "shape"
+    pure (.parseText sh)
+  | "save" => pure (.save (match j.getObjVal? "multifile" with | .ok (.bool b) => b | _ => false) a)
+  | "get_defaults" => pure .getDefaults
+  | "set_default" => pure (.setDefault (getStr j "s") a)
+  | o => throw ("bad history op " ++ o)
+
 def step (j : Json) : Except String Json := do
   let op := getStr j "op"
   let k := getNat j "k" 1000
@@ -137,7 +162,34 @@ def step (j : Json) : Except String Json := do
     pure (outM (parseObject pol cs ds base obj k) sh [])
   | "instantiate" =>
     let t ← getT j "t"
-    pure (outM (instantiate pol cs metaKeys t k) (sharedMut pol t) [])
+    pure (outM (instantiate pol cs metaKeys t k) (stripShared pol t) [])
+  | "parse_args" =>
+    -- t = the argv list, t2 = the namespace handed in (optional), ds = declared defaults
+    let ds ← getKids j "ds"
+    let ns ← getOptT j "t2"
+    let argv ← getT j "t"
+    let sh := sharedMutK pol ds ++ (match ns with | some n => sharedMut pol n | none => [])
+    pure (outM (parseArgs pol cs ds ns argv k) sh [])
+  | "validate_branch" =>
+    let t ← getT j "t"
+    pure (outM (validateBranch pol cs (getStr j "branch") t k) (sharedMut pol t) [])
+  | "save" =>
+    let t ← getT j "t"
+    let mf := match j.getObjVal? "multifile" with | .ok (.bool b) => b | _ => false
+    pure (outM (save pol cs metaKeys mf t k) (sharedMut pol t) [])
+  | "history" =>
+    -- env = [tree], ds, ops = [{"o": name, "a": n, "b": n?, "s": str?, "known": [..]?, "shape": tree?}]
+    let ds ← getKids j "ds"
+    let env ← match j.getObjVal? "env" with
+      | .ok (.arr xs) => xs.toList.mapM tOfJson
+      | _ => pure []
+    let ops ← match j.getObjVal? "ops" with
+      | .ok (.arr xs) => xs.toList.mapM opOfJson
+      | _ => pure []
+    let s : St := { defaults := ds, env := env, k := k }
+    let ws := runHist pol cs metaKeys ops s
+    pure (Json.mkObj [("steps", .arr (ws.map natsToJson).toArray), ("shared", natsToJson (s.shared pol)),
+      ("ids", natsToJson s.ids), ("val", .num 0), ("writes", natsToJson ws.flatten), ("objs", natsToJson []), ("chg", natsToJson [])])
   | _ => throw ("bad-op " ++ op)
 
 partial def loop (h : IO.FS.Stream) (out : IO.FS.Stream) : IO Unit := do
